@@ -18,6 +18,8 @@ use crate::sched::{self, emit, point, Ctl, Pending, CTL, CV};
 use crate::varc::{self, name_of, violation, VArc};
 
 pub type T = Option<VArc<0>>;
+/// a second pointee type, allocated from the same pool of addresses
+pub type T1 = Option<VArc<1>>;
 
 fn ident(v: &T) -> String {
     match v {
@@ -82,6 +84,24 @@ pub struct Names {
     allocs: usize,
     /// (worker, node) → writer reservations currently held (its fetch_add / fetch_sub on active_writers)
     reserved: HashMap<(usize, usize), i64>,
+    /// per worker: the API call it is in, and its last atomic access (for oracle messages)
+    cur_api: HashMap<usize, String>,
+    last_site: HashMap<usize, String>,
+}
+
+/// where the calling worker is: `(t<w> in `<api call>`, last atomic access <site> [fail])`
+pub fn context() -> String {
+    match sched::me() {
+        None => String::new(),
+        Some(w) => names(|n| {
+            format!(
+                " (t{} in `{}`, last atomic access {})",
+                w,
+                n.cur_api.get(&w).cloned().unwrap_or_default(),
+                n.last_site.get(&w).cloned().unwrap_or_default()
+            )
+        }),
+    }
 }
 
 pub static NAMES: Mutex<Option<Names>> = Mutex::new(None);
@@ -249,6 +269,7 @@ fn after_hook(e: &Event, val: usize, ok: bool) {
     }
     let line = names(|n| {
         let site = site_label(n, e);
+        n.last_site.insert(w, format!("{}{}", site, if ok { "" } else { " fail" }));
         if site.starts_with("list.rs:Node::") {
             n.list_path.insert(w, true);
         }
@@ -518,11 +539,25 @@ fn lock<X>(m: &Mutex<X>) -> std::sync::MutexGuard<'_, X> {
 
 struct Shared<S: Strategy<T>> {
     regs: Mutex<Regs<S>>,
+    /// handles and containers of the second pointee type
+    h1: Mutex<Vec<Option<T1>>>,
+    c1: Mutex<Vec<Option<Arc<dyn Store1>>>>,
     /// per worker: (container, i0) of the load-like call in progress, and its per-container
     /// monotonic index
     mono: Mutex<HashMap<(usize, usize), usize>>,
     stats: Mutex<HashMap<String, u64>>,
     load_bound: usize,
+}
+
+/// a container of the second pointee type, behind a trait object so that `Shared` need not name
+/// the strategy's bound for that type
+trait Store1: Send + Sync {
+    fn store1(&self, v: T1);
+}
+impl<S: Strategy<T1> + Send + Sync> Store1 for ArcSwapAny<T1, S> {
+    fn store1(&self, v: T1) {
+        self.store(v)
+    }
 }
 
 fn stat<S: Strategy<T>>(sh: &Shared<S>, k: &str, v: u64, max: bool) {
@@ -571,7 +606,7 @@ fn check_window<S: Strategy<T>>(sh: &Shared<S>, w: usize, c: usize, i0: usize, g
 
 fn exec_op<S>(sh: &Shared<S>, w: usize, op: &Op) -> String
 where
-    S: Strategy<T> + CaS<T> + Default + Send + Sync + 'static,
+    S: Strategy<T> + CaS<T> + Strategy<T1> + Default + Send + Sync + 'static,
 {
     // Helpers to take / put registers without holding the lock across scheduling points.
     macro_rules! take_h { ($i:expr) => {{ let mut r = lock(&sh.regs); if $i < r.h.len() { let x = r.h[$i].take(); if x.is_some() { crate::race::reg_take(b'h', $i); } x } else { None } }}; }
@@ -981,6 +1016,52 @@ where
                 }
             }
         }
+        Op::New1 { h, val } => {
+            let v = Some(VArc::<1>::new(*val));
+            let id = v.as_ref().unwrap().ident();
+            let mut r = lock(&sh.h1);
+            if r.len() <= *h {
+                r.resize_with(*h + 1, || None);
+            }
+            if r[*h].is_some() {
+                return "skip".into();
+            }
+            r[*h] = Some(v);
+            format!("k{}={}", h, id)
+        }
+        Op::Mk1 { c, h } => {
+            let v = { let mut r = lock(&sh.h1); if *h < r.len() { r[*h].take() } else { None } };
+            let v = match v { None => return "skip".into(), Some(v) => v };
+            let id = v.as_ref().map(|a| a.ident()).unwrap_or_else(|| "null".into());
+            let a = Arc::new(ArcSwapAny::<T1, S>::with_strategy(v, S::default()));
+            let addr = a.verif_storage_addr();
+            names(|n| {
+                n.cells.insert(addr, 100 + *c);
+                n.hist.insert(100 + *c, vec![id.clone()]);
+            });
+            let mut r = lock(&sh.c1);
+            if r.len() <= *c {
+                r.resize_with(*c + 1, || None);
+            }
+            r[*c] = Some(a);
+            format!("d{}={}", c, id)
+        }
+        Op::Store1 { c, h } => {
+            let a = { let r = lock(&sh.c1); if *c < r.len() { r[*c].clone() } else { None } };
+            let a = match a { None => return "skip".into(), Some(a) => a };
+            let v = { let mut r = lock(&sh.h1); if *h < r.len() { r[*h].take() } else { None } };
+            match v {
+                None => "skip".into(),
+                Some(v) => {
+                    a.store1(v);
+                    "ok".into()
+                }
+            }
+        }
+        Op::DropH1 { h } => {
+            let v = { let mut r = lock(&sh.h1); if *h < r.len() { r[*h].take() } else { None } };
+            match v { None => "skip".into(), Some(v) => { drop(v); "ok".into() } }
+        }
         Op::SetGen { v } => {
             // make sure the thread-local exists, then preset the counter
             verif::set_generation(*v as usize);
@@ -996,7 +1077,7 @@ pub struct RunCfg {
 
 pub fn run<S>(prog: &Program, mut policy: Policy, cfg: &RunCfg) -> Outcome
 where
-    S: Strategy<T> + CaS<T> + Default + Send + Sync + 'static,
+    S: Strategy<T> + CaS<T> + Strategy<T1> + Default + Send + Sync + 'static,
     Guard<T, S>: Send,
 {
     verif::reset_list();
@@ -1016,11 +1097,15 @@ where
         n.lockstep_allocs = 0;
         n.allocs = 0;
         n.reserved.clear();
+        n.cur_api.clear();
+        n.last_site.clear();
         n.head = verif::list_head_addr();
     });
     verif::set_hooks(Some(before_hook), Some(after_hook));
     let sh = Arc::new(Shared::<S> {
         regs: Mutex::new(Regs { h: vec![], g: vec![], c: vec![], busy: vec![] }),
+        h1: Mutex::new(vec![]),
+        c1: Mutex::new(vec![]),
         mono: Mutex::new(HashMap::new()),
         stats: Mutex::new(HashMap::new()),
         load_bound: cfg.load_bound,
@@ -1051,6 +1136,7 @@ where
                     for op in &ops {
                         point(Pending { site: "begin".into(), weak_cas: false, api: op.text() });
                         lock(&apis).insert(w, op.text());
+                        names(|n| n.cur_api.insert(w, op.text()));
                         emit(format!("begin {}", op.text()));
                         sched::reset_api_steps();
                         let r = catch_unwind(AssertUnwindSafe(|| exec_op(&sh, w, op)));
@@ -1205,6 +1291,8 @@ where
                 }
                 drop(cs);
                 drop(hs);
+                drop(std::mem::take(&mut *lock(&sh2.c1)));
+                drop(std::mem::take(&mut *lock(&sh2.h1)));
             }));
         })
         .join();
